@@ -423,7 +423,9 @@ def run(tier):
             "a": GraphQLArgument(ty, default=GraphQLDefaultInput(value=v))})})
         probes.append((f"default-probe:{ty}:{v!r}", GraphQLSchema(q)))
     # Python representations of default values (defaults travel as printed text through introspection)
-    quick_keys = ("nested", "Int:100.0", "Int:2000.0", "Int:-0.0", "[Int]:(1, 2.0)", "[Int]:5.0", "Float:3:", "ID:12.0")
+    quick_keys = ("nested", "Int:100.0", "Int:2000.0", "Int:-0.0", "[Int]:(1, 2.0)", "[Int]:5.0", "Float:3:", "ID:12.0",
+                  "shared-default-probe:enum-string", "shared-default-probe:float-int:ab",
+                  "shared-default-probe:input-objects:history-a-then-b")
     for key, sch in G.representation_probes():
         if not quick or any(k in key for k in quick_keys):
             probes.append((key, sch))
